@@ -4,6 +4,8 @@ package props
 import (
 	"sort"
 
+	"rtpcheck/bounds"
+
 	"rtpcheck/core"
 )
 
@@ -12,6 +14,10 @@ type Ctx struct {
 	R     *core.Report
 	Tier  string
 	Verif string
+	// thorough-tier bookkeeping of the BOUNDS double run
+	secondPass, collectOnly bool
+	cfgOverride             *bounds.Config
+	thoroughOK              map[string]bool
 }
 
 var Registry = map[string]func(*Ctx){}
